@@ -8,7 +8,7 @@ import re as _re
 from typing import Any, Dict, List, Optional, Set, Tuple
 
 from .. import materialize, rx
-from ..core import Ctx, assigned_names, dotted, names_in, norm, stmts_local, walk_local
+from ..core import Ctx, Locals, assigned_names, dotted, names_in, norm, stmts_local, walk_local
 from ..guards import guarded
 from ..paths import enumerate_paths
 from .c12 import from_match_rules
@@ -166,23 +166,27 @@ def rule_revalidation(ctx: Ctx):
     # byte offset -> str offset by decoding; undecodable offsets are dropped
     dec = [n for n in walk_local(fn) if isinstance(n, ast.Call) and isinstance(n.func, ast.Attribute) and n.func.attr == "decode"]
     okd = False
+    LOC = Locals(fn)
+    lens = [n for n in walk_local(fn) if isinstance(n, ast.Call) and dotted(n.func) == "len" and len(n.args) == 1]
     for d in dec:
-        par = d.parent
         tr = d
         in_try = False
         while tr is not fn:
             tr = tr.parent
             if isinstance(tr, ast.Try) and any(h.type is not None and "UnicodeDecodeError" in norm(h.type) and any(isinstance(s, ast.Continue) for s in h.body) for h in tr.handlers):
                 in_try = True
-        sl = d.func.value
-        if isinstance(par, ast.Call) and dotted(par.func) == "len" and in_try and isinstance(sl, ast.Subscript) and isinstance(sl.slice, ast.Slice):
+        # the bytes decoded are a slice (directly, or a local holding the slice)
+        sl = LOC.expand(d.func.value, d)
+        # ... and its length is what is counted: len(<the decode call>) directly or through a local
+        counted = any(l.args[0] is d or norm(LOC.expand(l.args[0], l)) == norm(LOC.expand(d, d)) for l in lens)
+        if counted and in_try and isinstance(sl, ast.Subscript) and isinstance(sl.slice, ast.Slice):
             okd = True
     ctx.ob("R-C14-7", f"{q}/byte-to-str-offsets-by-decoding", okd,
            "str offsets are obtained by decoding the bytes between consecutive hit offsets (len(bytes[a:b].decode())), and an offset that splits a "
            "character (UnicodeDecodeError) is dropped: offsets of kept hits are exact for every text", node=dec[0] if dec else fn, mod=tm)
     table = next((norm(x.targets[0].value) for x in stmts_local(fn.body) if isinstance(x, ast.Assign) and isinstance(x.targets[0], ast.Subscript)
                   and isinstance(x.targets[0].value, ast.Name)), None)
-    lookups = [n for n in walk_local(fn) if isinstance(n, ast.Compare) and any(isinstance(o, ast.In) for o in n.ops) and table and norm(n.comparators[0]) == table]
+    lookups = [n for n in walk_local(fn) if isinstance(n, ast.Compare) and any(isinstance(o, (ast.In, ast.NotIn)) for o in n.ops) and table and norm(n.comparators[0]) == table]
     ctx.ob("R-C14-7", f"{q}/misaligned-hits-discarded", len(lookups) >= 2, "a hit is used only if both of its offsets decoded", node=lookups[0] if lookups else fn, mod=tm)
 
 
